@@ -650,12 +650,7 @@ Proof.
 Qed.
 
 (* ---------------------------------------------------------------- objects *)
-Fixpoint norm_props_from (env : enum_env) (idx : N) (ds : list prop) : list rprop :=
-  match ds with
-  | [] => []
-  | d :: r => norm_prop env idx d :: norm_props_from env (idx + 1)%N r
-  end.
-Definition norm_object (env : enum_env) (ds : list prop) : list rprop := norm_props_from env 0%N ds.
+(* norm_props_from / norm_object / norm_root: model/RulesRead.v *)
 
 Lemma c04_props_from env ds : forall idx os,
   zero_std env = true ->
@@ -707,8 +702,6 @@ Proof. apply c04_props_from_exact. Qed.
 
 (* ---------------------------------------------------------------- root schemas *)
 (* the root schema a declaration denotes: kind, name and description as declared, the properties in normal form *)
-Definition norm_root (env : enum_env) (d : root_decl) : rroot :=
-  RR (rd_kind d) (rd_name d) (rd_desc d) (norm_object env (rd_props d)).
 
 Theorem c04_root env d o :
   zero_std env = true -> rt_root d = true ->
